@@ -60,6 +60,7 @@ type Cluster struct {
 	mu    sync.Mutex
 	stuck map[*raft.RaftGroup]bool // ready loops that did not take a tick within the hook's bound (10 s)
 	hung  []string                 // calls into a node that did not return within their bound
+	wired map[*storage.Dataset]bool // Dataset objects that have their in-memory clients
 }
 
 // Stuck reports what did not respond: ready loops that would not take a tick, calls that did not return.
